@@ -16,6 +16,16 @@
 #include <string>
 #include <vector>
 
+#if YACLIB_CORO != 0
+#  include <yaclib/async/shared_contract.hpp>
+#  include <yaclib/coro/await.hpp>
+#  include <yaclib/coro/await_inline.hpp>
+#  include <yaclib/coro/await_on.hpp>
+#  include <yaclib/coro/await_sticky.hpp>
+#  include <yaclib/coro/future.hpp>
+#  include <yaclib/coro/shared_future.hpp>
+#endif
+
 namespace vx {
 bool SeqFailed();
 const char* SeqOracle();
@@ -287,6 +297,141 @@ void GetAndStrand() {
 
 }  // namespace
 
+#if YACLIB_CORO != 0
+// co_await of futures inside an already running coroutine: the allocations between the statement before the
+// co_await and the statement after it (the coroutine's own frame was allocated when it was called).
+struct CoWorld {
+  yaclib::Future<T, E> f[4];
+  yaclib::SharedFuture<T, E> s;
+  vxh::TestExecutor exec{vxh::TestExecutor::kInline};
+  int allocs = -1;
+};
+
+yaclib::Future<int, E> Awaiter(CoWorld& w, int form, int n) {
+  const std::uint64_t a0 = vx::gAllocCount;
+  switch (form) {
+    case 0: {
+      T v = co_await std::move(w.f[0]);
+      (void)v;
+    } break;
+    case 1: {
+      T v = co_await w.s;
+      (void)v;
+    } break;
+    case 2:
+      if (n == 1) {
+        co_await yaclib::Await(w.f[0]);
+      } else if (n == 2) {
+        co_await yaclib::Await(w.f[0], w.f[1]);
+      } else {
+        co_await yaclib::Await(w.f[0], w.f[1], w.f[2], w.f[3]);
+      }
+      break;
+    case 3:
+      co_await yaclib::Await(static_cast<yaclib::Future<T, E>*>(w.f), static_cast<std::size_t>(n));
+      break;
+    case 4:
+      if (n == 1) {
+        co_await yaclib::AwaitOn(w.exec, w.f[0]);
+      } else {
+        co_await yaclib::AwaitOn(w.exec, w.f[0], w.f[1]);
+      }
+      break;
+    case 5:
+      if (n == 1) {
+        co_await yaclib::AwaitSticky(w.f[0]);
+      } else {
+        co_await yaclib::AwaitSticky(w.f[0], w.f[1]);
+      }
+      break;
+    case 6:
+      if (n == 1) {
+        co_await yaclib::AwaitInline(w.f[0]);
+      } else {
+        co_await yaclib::AwaitInline(w.f[0], w.f[1]);
+      }
+      break;
+    default:
+      co_await yaclib::Await(w.s, w.f[0]);
+      break;
+  }
+  w.allocs = static_cast<int>(vx::gAllocCount - a0);
+  co_return 0;
+}
+
+void CoAwaits() {
+  const char* const forms[] = {"co_await future&&", "co_await shared", "Await(fs...)", "Await(begin,n)", "AwaitOn(e,fs...)",
+                               "AwaitSticky(fs...)", "AwaitInline(fs...)", "Await(shared,future)"};
+  for (int form = 0; form < 8; ++form) {
+    for (int n : {1, 2, 4}) {
+      if ((form <= 1 || form == 7) && n != 1) {
+        continue;
+      }
+      if ((form >= 4 && form <= 6) && n == 4) {
+        continue;
+      }
+      for (int ready = 0; ready < 2; ++ready) {  // already complete / completed while the coroutine is suspended
+        vx::SeqReset();
+        ++gCases;
+        const std::int64_t live0 = vx::gAllocLive;
+        {
+          CoWorld w;
+          std::vector<yaclib::Promise<T, E>> ps;
+          yaclib::SharedPromise<T, E> sp;
+          {
+            Pause p;
+            ps.reserve(4);
+            for (int i = 0; i < 4; ++i) {
+              auto [f, pr] = yaclib::MakeContract<T, E>();
+              w.f[i] = std::move(f);
+              ps.push_back(std::move(pr));
+            }
+            auto [sf, spr] = yaclib::MakeSharedContract<T, E>();
+            w.s = std::move(sf);
+            sp = std::move(spr);
+          }
+          auto complete = [&] {
+            for (auto& pr : ps) {
+              std::move(pr).Set(T{3});
+            }
+            std::move(sp).Set(T{4});
+          };
+          if (ready != 0) {
+            complete();
+          }
+          yaclib::Future<int, E> out;
+          {
+            Pause p;  // the frame of the coroutine belongs to the call, not to the co_await inside it
+            out = Awaiter(w, form, n);
+          }
+          if (ready == 0) {
+            const std::uint64_t b0 = vx::gAllocCount;
+            complete();
+            if (vx::gAllocCount != b0) {
+              Finding("alloc:co_await", std::string{forms[form]} + " n=" + std::to_string(n) + " pending",
+                      std::to_string(vx::gAllocCount - b0) + " allocation(s) while the awaited futures completed and the coroutine resumed (must be 0)");
+            }
+          }
+          ++gOps;
+          if (w.allocs != 0) {
+            Finding("alloc:co_await", std::string{forms[form]} + " n=" + std::to_string(n) + (ready ? " ready" : " pending"),
+                    w.allocs < 0 ? std::string{"the coroutine did not resume"} : std::to_string(w.allocs) + " allocation(s) between the statements around the co_await (must be 0)");
+          }
+          Pause p;
+          (void)std::move(out).Get();
+        }
+        if (vx::gAllocLive != live0) {
+          Finding("alloc:leak", std::string{forms[form]} + " n=" + std::to_string(n), std::to_string(vx::gAllocLive - live0) + " blocks still live");
+        }
+        if (vx::SeqFailed()) {
+          Finding(vx::SeqOracle(), std::string{forms[form]} + " n=" + std::to_string(n), vx::SeqText());
+        }
+      }
+    }
+  }
+}
+#endif
+
 int main(int argc, char** argv) {
   std::string out;
   for (int i = 1; i < argc; ++i) {
@@ -302,8 +447,12 @@ int main(int argc, char** argv) {
   Combinators<FailPolicy::LastFail>("LastFail");
   Waits();
   GetAndStrand();
+#if YACLIB_CORO != 0
+  CoAwaits();
+#endif
   Pause p;
-  std::string js = "{\"harness\":\"alloc\",\"property\":\"C20\",\"cells\":[{\"cell\":\"combinators,waits,get,strand\",";
+  std::string js = std::string{"{\"harness\":\"alloc\",\"property\":\"C20\",\"cells\":[{\"cell\":\"combinators,waits,get,strand"} +
+                   (YACLIB_CORO != 0 ? ",co_await" : "") + "\",";
   char b[300];
   std::snprintf(b, sizeof(b),
                 "\"executions\":%llu,\"nodes\":%llu,\"transitions\":%llu,\"distinct_traces\":%llu,\"distinct_outcomes\":%llu,"
